@@ -38,7 +38,7 @@ pub fn roundtrip(case: &Case) -> Verdict {
     let alt_repr = pk.noncanonical > 0;
     let dv = denote(&t);
     if !dv.same(v) {
-        vfail!("harness:lift-denote", "denote(lift(v)) != v: {} vs {}", dv.render(), v.render());
+        vfail!("constructed-term-denotes-another-value", "denote(lift(v)) != v: {} vs {}", dv.render(), v.render());
     }
     let enc = match erltf::encode(&t) {
         Ok(b) => b,
@@ -180,6 +180,17 @@ fn oversize_strategy() -> impl Strategy<Value = Oversize> {
     ]
 }
 
+/// every well-known atom as a bare term, inside containers and as an identifier's node name
+fn well_known_atoms() -> Vec<Case> {
+    let mut out = vec![];
+    for a in crate::gen::COMMON_ATOMS {
+        out.push(Case { value: Value::atom(a), repr: vec![] });
+        out.push(Case { value: Value::Tuple(vec![Value::atom(a), Value::list(vec![Value::atom(a), Value::atom("ok")]), Value::Map(vec![(Value::atom(a), Value::atom(a))])]), repr: vec![] });
+        out.push(Case { value: Value::Tuple(vec![Value::Pid { node: a.to_string(), id: 1, serial: 2, creation: 3 }, Value::ExportFun { module: a.to_string(), function: a.to_string(), arity: 1 }]), repr: vec![] });
+    }
+    out
+}
+
 pub fn run(run: &mut Run) {
     run.rule = "proptest over the boundary-biased term space (refmodel::Value lifted to every library representation); \
         non-trivial = value has >= 2 nodes or a scalar in a boundary class; distinct by hash of the encoded bytes"
@@ -193,6 +204,7 @@ pub fn run(run: &mut Run) {
     let n2 = run.tier.pick(10_000, 500_000);
     run.prop("roundtrip-deep", || case_strategy(GenCfg { depth: 8, size: 160, heavy: false, ..GenCfg::std() }), n2, roundtrip);
     run.prop("oversize", oversize_strategy, run.tier.pick(60, 600), oversize);
+    run.enumerate("well-known-atoms", well_known_atoms().into_iter(), roundtrip);
 }
 
 pub fn replays() -> Vec<ReplayEntry> {
@@ -200,5 +212,6 @@ pub fn replays() -> Vec<ReplayEntry> {
         replay_entry("roundtrip", roundtrip),
         replay_entry("roundtrip-deep", roundtrip),
         replay_entry("oversize", oversize),
+        replay_entry("well-known-atoms", roundtrip),
     ]
 }
